@@ -205,6 +205,9 @@ pub struct Cfg {
     pub initial_start_with: bool,
     pub start_disabled: bool,
     pub second: Option<OtherSpec>,
+    /// A second animated entity: plain `Animator<Target>` (no selector, no chain) playing
+    /// `tls[index]`, spawned before or after the main entity.
+    pub extra_entity: Option<(usize, bool)>,
     pub order: Order,
     pub initial: Vals,
     pub grid: bool,
@@ -293,6 +296,13 @@ pub fn scn_to_json(s: &BScn) -> Json {
         .set("start_disabled", c.start_disabled)
         .set("second_animator", c.second.as_ref().map(other_to_json).unwrap_or(Json::Null))
         .set(
+            "extra_plain_entity",
+            match c.extra_entity {
+                Some((tl, before)) => Json::obj().set("timeline", tl).set("spawned_before_main", before),
+                None => Json::Null,
+            },
+        )
+        .set(
             "order",
             Json::obj()
                 .set("other_plugin_first", c.order.other_plugin_first)
@@ -380,6 +390,13 @@ pub fn scn_from_json(j: &Json) -> Result<BScn, String> {
             Json::Null => None,
             v => Some(other_from_json(v)?),
         },
+        extra_entity: match c.get("extra_plain_entity") {
+            None | Some(Json::Null) => None,
+            Some(v) => Some((
+                v.req("timeline")?.as_i64()? as usize,
+                v.req("spawned_before_main")?.as_bool()?,
+            )),
+        },
         order: Order {
             other_plugin_first: o.req("other_plugin_first")?.as_bool()?,
             register_before_plugin: o.req("register_before_plugin")?.as_bool()?,
@@ -428,6 +445,7 @@ pub fn scn_from_json(j: &Json) -> Result<BScn, String> {
 pub struct SimWorld {
     pub app: App,
     pub entity: Entity,
+    pub extra: Option<Entity>,
     pub bystander: Entity,
     pub reader: bevy::ecs::event::ManualEventReader<AnimationStateChanged>,
     pub now: Instant,
@@ -499,6 +517,20 @@ pub fn build_world(cfg: &Cfg) -> SimWorld {
     single_threaded(&mut app);
 
     let component = target_of(&cfg.initial);
+    let spawn_extra = |app: &mut App| -> Option<Entity> {
+        cfg.extra_entity.map(|(tl, _)| {
+            app.world
+                .spawn((
+                    target_of(&cfg.initial),
+                    Animator::<Target>::with_timeline(build_target_merged(&cfg.tls[tl])),
+                ))
+                .id()
+        })
+    };
+    let mut extra = None;
+    if matches!(cfg.extra_entity, Some((_, true))) {
+        extra = spawn_extra(&mut app);
+    }
     let mut animator: Animator<Target> = if cfg.selector {
         Animator::new()
     } else {
@@ -542,6 +574,9 @@ pub fn build_world(cfg: &Cfg) -> SimWorld {
         e.insert((Other::default(), Animator::<Other>::with_timeline(build_other_tl(o))));
     }
     let entity = e.id();
+    if matches!(cfg.extra_entity, Some((_, false))) {
+        extra = spawn_extra(&mut app);
+    }
     let bystander = app
         .world
         .spawn((target_of(&cfg.initial), Bystander { v: 42.0 }))
@@ -553,6 +588,7 @@ pub fn build_world(cfg: &Cfg) -> SimWorld {
     SimWorld {
         app,
         entity,
+        extra,
         bystander,
         reader,
         now: base,
